@@ -411,6 +411,8 @@ def run(ck: Checker) -> None:
     ck.guard("R-TREE-STATE", lambda: r_tree_fresh(ck))
     ck.guard("R-PRESENCE", lambda: T.r_presence(ck))
     ck.guard("R-PRESENCE", lambda: T.r_child_abc(ck))
+    ck.guard("R-TYPES-CACHE", lambda: T.r_types_cache(ck))
+    ck.guard("R-REINSTALL", lambda: T.r_reinstall(ck))
     from .c05 import r_traversals
     ck.guard("R-WORKLIST", lambda: r_traversals(ck))  # the tables hold what the traversal visits  # the tables are filled from dfs(): a child value is never classified by an ABC test
     ck.require_count("R-TREE-FILL", 5)
